@@ -17,12 +17,24 @@ PLAN = {
                  "backends": ["numpy", "torch"], "torch_cases": 600, "torch_shards": 2, "torch_hashseeds": 1},
 }
 RULE = ("random discrete BNs (1-7 nodes; templates: ER, chain, collider, fork, >=3-parent family, two parts, "
-        "isolated node; cards 1-4; state names id/1-based/permuted ints/strings/tuples/mixed; zeros and "
-        "deterministic columns) x query of 1-3 vars x 0-3 hard evidence with P(e)>0 (checked by oracle) x 0-2 "
-        "virtual-evidence vectors x every elimination-order option x joint in {True,False}. non-trivial: >=2 "
-        "nodes, >=1 edge, and evidence or a non-query variable present; distinct by digest of the whole spec")
-ASSUMPTIONS = ["brute-force joint (<= 4096 cells) is the reference", "float64 comparisons at 1e-9",
-               "each case uses a fresh engine (engine histories are C16)"]
+        "isolated node, multi-route ancestors with random node names, 'twin sensor' nodes with identical CPDs; "
+        "cards 1-4; state names id/1-based/permuted ints/strings/tuples/mixed; zeros, deterministic columns and "
+        "columns with entries down to 1e-13) x query of 1-3 vars x 0-3 hard evidence with P(e)>0 (checked by the "
+        "oracle; twins observed in the same state) x 0-2 virtual-evidence vectors x every elimination-order option "
+        "x joint in {True,False}; in 60% of cases with evidence the engine first answers a decoy question of the "
+        "same shape. non-trivial: >=2 nodes, >=1 edge, and evidence or a non-query variable present; distinct by "
+        "digest of the whole spec")
+ASSUMPTIONS = ["brute-force joint (<= 4096 cells) is the reference", "float64 comparisons at 1e-9 (2e-6 in torch cells)",
+               "longer engine histories are C16's workload; C01 only asks one decoy question first"]
+MANIFEST = {
+    "text": "On every generated network / query / evidence / virtual evidence and for every elimination-order option "
+            "and both result modes, the posterior returned by VariableElimination.query (and predict_probability, "
+            "get_state_probability) equals the conditional of the brute-force CPD-product joint per named assignment "
+            "and carries the model's state names, in 3 (quick) / 12 (thorough) hash-seed processes and a torch cell. "
+            "Exploration only: nothing is claimed outside the generated domain (<= 8 variables, cards <= 4).",
+    "technique": "runtime monitoring: brute-force-joint reference monitor on VariableElimination.query over seeded hostile "
+                 "inputs, hash-seed / backend fan-out, sys.monitoring reach counters on the anchored mechanisms",
+}
 REACH = [
     "pgmpy.inference.base:Inference._prune_bayesian_model",
     "pgmpy.inference.base:Inference._virtual_evidence",
